@@ -46,6 +46,7 @@ thread_local! {
 }
 
 fn log(line: String) {
+    crate::typed::progress();
     SH.with(|s| s.borrow_mut().log.push(line));
 }
 
